@@ -141,6 +141,11 @@ Theorem C19_bits :
   /\ link_states = [1; 2; 4; 8; 16; 32; 64]%N /\ LinkAny = 127%N.
 Proof. split; [exact change_bits_literal | split; [exact link_states_literal | exact (proj2 link_any_is_union)]]. Qed.
 
+(* the model's events are atomic steps: Subscribe and the closing of the channels run under the watcher's write lock
+   from their first statement to their return, notify under its read lock (extracted) *)
+Theorem C19_events_atomic : subscribe_atomic = true /\ notify_atomic = true /\ close_atomic = true.
+Proof. repeat split; reflexivity. Qed.
+
 Theorem C19_capacity : chan_cap = 8.
 Proof. exact chan_cap_8. Qed.
 
@@ -183,3 +188,4 @@ Print Assumptions C19_single_event.
 Print Assumptions C19_bits.
 Print Assumptions C19_capacity.
 Print Assumptions C19_operstate.
+Print Assumptions C19_events_atomic.
